@@ -1,5 +1,6 @@
 import LoraVerif.Model.Codec
 import LoraVerif.Gen.CodecFn
+import LoraVerif.Lemmas.CodecLemmas
 /-!
 # Tie A for the frame codec (C01, C02): `securityhelpers.rs` regenerated (`Gen.CodecFn`) = the hand model
 
@@ -487,6 +488,24 @@ theorem tieA_write_mic (cr : Crypto) (out : Bytes) (hlen : out.length < 2 ^ 64) 
 
 example : (writeMic ⟨⟨fun _ b => b, fun _ b => b, fun _ _ => Vector.replicate 16 7⟩, Block.zero⟩ [1, 2, 3, 4, 5, 6]).map ints
     = .ok [1, 2, 7, 7, 7, 7] := by decide
+
+/-- **Tie A, composed with the model's keystream theorem.** On a frame `pre ++ pl ++ post` whose header yields the block
+`a0`, the REGENERATED `encrypt_frm_data_payload` returns `pre ++ (pl XOR keystream) ++ post`, keystream octet `i` =
+`ksByte cr a0 i` (octet `i mod 16` of `aes(key, a0[15 := i / 16 + 1])`), for every payload up to 4064 octets: no panic,
+`pre` and `post` untouched. -/
+theorem tieA_encrypt_eq_keystream (cr : Crypto) (pre pl post : Bytes) (fcnt : UInt32) (a0 : Block)
+    (ha : generateHelperBlock (pre ++ pl ++ post) 0x01 fcnt Block.zero = .ok a0) (hmax : pl.length ≤ 4064)
+    (hlen : pre.length + pl.length < 2 ^ 64) :
+    Gen.CodecFn.encrypt_frm_data_payload (ints (pre ++ pl ++ post)) (pre.length : Int) ((pre.length + pl.length : Nat) : Int)
+        (fcnt.toNat : Int) (genCrypto cr)
+      = some (ints (pre ++ List.zipWith (· ^^^ ·) pl ((List.range pl.length).map (Lora.CodecLemmas.ksByte cr a0)) ++ post)) := by
+  have h := tieA_encrypt_frm_data_payload cr (pre ++ pl ++ post) pre.length (pre.length + pl.length) fcnt hlen
+  rw [Lora.CodecLemmas.encryptFrm_spec cr pre pl post fcnt a0 _ _ rfl rfl ha hmax] at h
+  exact opt_of_eq h
+
+/-- the hypotheses are satisfiable: an uplink header of nine octets, a two-octet payload -/
+example : (generateHelperBlock ([0x40, 1, 2, 3, 4, 0, 5, 0, 1] ++ [9, 9] ++ [0, 0, 0, 0]) 0x01 5 Block.zero).map (fun _ => ())
+    = .ok () := by decide
 
 /-- non-vacuity: on a concrete downlink header both sides of `tieA_generate_helper_block` are a block (not a panic) -/
 example : (generateHelperBlock [0x60, 1, 2, 3, 4, 0, 7, 0] 0x49 0x01020304 Block.zero).map (fun b => ints b.toList)
